@@ -454,7 +454,7 @@ impl Property for C10 {
     }
 
     fn plan(&self, tier: Tier) -> Vec<Stage<Case>> {
-        vec![Stage::random("histories", tier.pick(15_000, 500_000), case_strategy)]
+        vec![Stage::random("histories", tier.pick(25_000, 1_200_000), case_strategy)]
     }
 
     fn rule(&self) -> String {
@@ -462,7 +462,7 @@ impl Property for C10 {
     }
 
     fn floors(&self, tier: Tier) -> Vec<Floor> {
-        let n = tier.pick(15_000u64, 500_000);
+        let n = tier.pick(25_000u64, 1_200_000);
         vec![
             Floor { label: "op:update", min: n },
             Floor { label: "op:set_order:0", min: n / 4 },
